@@ -21,7 +21,7 @@ from ..acc import Acc
 ID = "C14"
 LEVEL = "model_checking"
 TECHNIQUE = "explicit-state BFS over the real cache objects against a policy transition relation + exhaustive preemption-bounded interleavings (baton scheduler) with a linearizability oracle"
-RULE = ("A: LRUCache/HybridCache/SimpleCache/DiskCache(+/- in-memory LRU), max_size 1..3, keys a,b,c, values 1,2, durations 0,2,3: BFS over "
+RULE = ("A: LRUCache/HybridCache/SimpleCache/DiskCache(+/- in-memory LRU), max_size 1..3, keys a,b,c, values 1,None, durations 0,2,3: BFS over "
         "put/get/clear(/reopen) to depth D (quick: lru 5, hybrid 4, simple 3, disk 3; thorough: 7/5/4/4) from the implementation's own state; contains/len read at every state. B: every 2-thread program "
         "with 1..2 operations per thread on colliding keys, all interleavings with <= 2 preemptions. C: every history of length <= 3 x every "
         "assignment of its steps to two forked processes")
@@ -32,7 +32,7 @@ ASSUMPTIONS = ["shared mode is explored at the granularity of manager-proxy call
 BUDGET = {"quick": 75.0, "thorough": 900.0}
 
 KEYS = ("a", "b", "c")
-VALUES = (1, 2)
+VALUES = (1, None)  # None is a value like any other (a stored None must not read as "missing")
 DURS = (0.0, 2.0, 3.0)  # (2, 3) with unequal access counts separates duration/total_duration from duration/anything-else at depth 4
 
 
